@@ -294,3 +294,32 @@ func vLastIndex(s, sub string) int {
 	}
 	return -1
 }
+
+// many unprocessable files in one directory (more than any small internal limit), annotated files among
+// and after them: the run ends, nothing crashes, every annotated file is merged, broken files are untouched
+func H_C19_many_broken() {
+	vFSMkdir("d")
+	n := 5 + vndChoice("more", 4)
+	var broken []vEntry
+	for i := 0; i < n; i++ {
+		name := "d/" + string([]byte{byte('a' + i)}) + "_broken.go"
+		content := "package p\nfunc {\n"
+		vFSPut(name, content)
+		vParseResult(name, nil, errors.New("expected 'IDENT', found '{'"))
+		broken = append(broken, vEntry{class: 2, name: name, content: content})
+	}
+	var good []vEntry
+	for _, nm := range []string{"d/c_mid.pb.go", "d/z_last.pb.go"} {
+		src, f := vAnnotatedSrc("required", false)
+		want, _ := vAnnotatedSrc("required", true)
+		vFSPut(nm, src)
+		vParseResult(nm, f, nil)
+		good = append(good, vEntry{class: 4, name: nm, content: src, want: want})
+	}
+	ok := vNoPanic(func() { _ = handleDir(vFSPath("d")) })
+	vAssert(ok, "C19 many broken files: no crash")
+	for _, e := range append(broken, good...) {
+		vCheckEntry("C19 many broken files", e)
+	}
+	vReach("end")
+}
